@@ -1,8 +1,7 @@
 (* C03 — a Runtime stays consistent and reusable after every kind of abrupt outcome.
    ONLY theorem statements; each is closed by [exact] of a lemma of C03/Proofs.v.
-   Model: C03/Model.v.  [fixed = false] is goja's bookkeeping algorithm as on the current tree (the former findings F16,
-   F17, F21, F22, F12 are repaired in /repo and in the model); [fixed = true] additionally repairs the open finding F23:
-   wherever the two differ the ghost field [leaked] grows (id 23).
+   Model: C03/Model.v: goja's bookkeeping algorithm as on the current tree.  Every finding of this property (F16, F17,
+   F21, F22, F23; F12 of C08) is repaired in /repo and in the model, so the theorems need no guard any more.
    An execution tree is a [node] (19 kinds: run-loop items and native actions); [api] is one outermost API call;
    [exec]/[api_exec] take fuel, [RStuck]/[OStuck] = out of fuel or an ill-formed tree (a native action among run-loop
    items or vice versa). *)
@@ -11,65 +10,52 @@ Import ListNotations.
 From Verif.C03 Require Import Model Proofs.
 Open Scope Z_scope.
 
-(* 1. idle_restored_partial — for EVERY API call (every execution tree), every call-depth limit, every fault plan and
-      every fuel: if the runtime is idle before the call, the call does not get stuck, and the execution does not run
-      into one of the recorded deviations (the guard: the repaired algorithm, or the ghost list of deviations did not
-      grow), then after the call sp, sb, args, prg, the scope and all four stacks are back at their idle values. *)
-Theorem idle_restored_partial : forall lim faults fixed fuel a st,
-  idle_regs st = true ->
-  snd (api_exec lim faults fixed fuel a st) <> RStuck ->
-  no_new_deviation fixed st (fst (api_exec lim faults fixed fuel a st)) ->
-  idle_regs (fst (api_exec lim faults fixed fuel a st)) = true.
-Proof. exact Proofs.idle_restored_partial. Qed.
-
-(* 2. idle_restored — the repaired algorithm needs no guard (on the current tree the guard of 1 excludes exactly F23). *)
+(* 1. idle_restored — for EVERY API call (every execution tree), every call-depth limit, every fault plan and every
+      fuel: if the runtime is idle before the call and the call does not get stuck, then after the call sp, sb, args,
+      prg, the scope and all four stacks are back at their idle values, however the call ended. *)
 Theorem idle_restored : forall lim faults fuel a st,
   idle_regs st = true ->
-  snd (api_exec lim faults true fuel a st) <> RStuck ->
-  idle_regs (fst (api_exec lim faults true fuel a st)) = true.
+  snd (api_exec lim faults fuel a st) <> RStuck ->
+  idle_regs (fst (api_exec lim faults fuel a st)) = true.
 Proof. exact Proofs.idle_restored. Qed.
 
-(* 2b. ... and after an outermost RunProgram / Callable the job queue is empty as well (drained by leave, dropped by
-      leaveAbrupt or by the foreign-panic exit), whatever the outcome (same guard as 1). *)
-Theorem idle_restored_jobs : forall lim faults fixed fuel body st,
+(* 1b. ... and after an outermost RunProgram / Callable the job queue is empty as well (drained by leave, dropped by
+      leaveAbrupt or by the foreign-panic exit), whatever the outcome. *)
+Theorem idle_restored_jobs : forall lim faults fuel body st,
   idle_regs st = true ->
-  (snd (api_exec lim faults fixed fuel (ARun body) st) <> RStuck ->
-   no_new_deviation fixed st (fst (api_exec lim faults fixed fuel (ARun body) st)) ->
-   idle_regs (fst (api_exec lim faults fixed fuel (ARun body) st)) = true /\
-   jq (fst (api_exec lim faults fixed fuel (ARun body) st)) = []) /\
-  (snd (api_exec lim faults fixed fuel (ACall body) st) <> RStuck ->
-   no_new_deviation fixed st (fst (api_exec lim faults fixed fuel (ACall body) st)) ->
-   idle_regs (fst (api_exec lim faults fixed fuel (ACall body) st)) = true /\
-   jq (fst (api_exec lim faults fixed fuel (ACall body) st)) = []).
+  (snd (api_exec lim faults fuel (ARun body) st) <> RStuck ->
+   idle_regs (fst (api_exec lim faults fuel (ARun body) st)) = true /\
+   jq (fst (api_exec lim faults fuel (ARun body) st)) = []) /\
+  (snd (api_exec lim faults fuel (ACall body) st) <> RStuck ->
+   idle_regs (fst (api_exec lim faults fuel (ACall body) st)) = true /\
+   jq (fst (api_exec lim faults fuel (ACall body) st)) = []).
 Proof. exact Proofs.idle_restored_jobs. Qed.
 
 Example idle_restored_nonvacuous :
   (* limit 7, a JS exception at the 3rd probe inside a for-of inside try inside a native callback inside a getter *)
   let a := ACall [Getter [Native [NCallable true [Try [ForOf 1 [Probe] 2 [Scope [Probe; RefCall [Probe]]] None] [Effect 1] [Rec] true true]]]; Probe] in
-  let r := api_exec (Some 7%nat) [(2%nat, FThrow)] false 40 a init in
+  let r := api_exec (Some 7%nat) [(2%nat, FThrow)] 40 a init in
   snd r = RError PSO /\ leaked (fst r) = [] /\ idle_regs (fst r) = true /\ log (fst r) = [1001%nat; 1%nat].
 Proof. vm_compute. auto. Qed.
 
-(* 3. whole histories: idle after every history of API calls that neither gets stuck nor runs into a deviation. *)
-Theorem history_idle : forall lim faults fixed fuel ops st,
+(* 2. whole histories: idle after every history of API calls that does not get stuck. *)
+Theorem history_idle : forall lim faults fuel ops st,
   idle_regs st = true ->
-  snd (run_calls lim faults fixed fuel ops st) = true ->
-  no_new_deviation fixed st (fst (run_calls lim faults fixed fuel ops st)) ->
-  idle_regs (fst (run_calls lim faults fixed fuel ops st)) = true.
+  snd (run_calls lim faults fuel ops st) = true ->
+  idle_regs (fst (run_calls lim faults fuel ops st)) = true.
 Proof. exact Proofs.history_idle. Qed.
 
 (* 4. nested_entry_restored — for EVERY node (every tree) started in ANY state (TopOK only says: an empty call stack
       means the top-level Go context): a node that completes restores every register and stack of its caller; a
       native action that panics leaves everything but sp as it found it, and the two error-returning conventions
       (Callable, RunProgram) restore sp as well. *)
-Theorem nested_entry_restored : forall lim faults fixed fuel nd s,
+Theorem nested_entry_restored : forall lim faults fuel nd s,
   TopOK s ->
-  no_new_deviation fixed s (fst (exec lim faults fixed fuel nd s)) ->
-  match snd (exec lim faults fixed fuel nd s) with
-  | ONorm => regs (fst (exec lim faults fixed fuel nd s)) = regs s
+  match snd (exec lim faults fuel nd s) with
+  | ONorm => regs (fst (exec lim faults fuel nd s)) = regs s
   | OPanic _ =>
-      same_but_sp s (fst (exec lim faults fixed fuel nd s)) /\
-      (match nd with NCallable _ _ | NRun _ _ => regs (fst (exec lim faults fixed fuel nd s)) = regs s | _ => True end)
+      same_but_sp s (fst (exec lim faults fuel nd s)) /\
+      (match nd with NCallable _ _ | NRun _ _ => regs (fst (exec lim faults fuel nd s)) = regs s | _ => True end)
   | _ => True
   end.
 Proof. exact Proofs.nested_entry_restored. Qed.
@@ -77,17 +63,17 @@ Proof. exact Proofs.nested_entry_restored. Qed.
 Example nested_entry_restored_nonvacuous :
   (* a native function (called from JS at depth 2) calls back a JS function that overflows the stack at limit 6 *)
   let s := set_cs [mkCtx true 0 1 0; halt_ctx] (set_sb 2 (set_sp 2 init)) in
-  let r := exec (Some 6%nat) [] false 40 (NCallable true [Rec]) s in
+  let r := exec (Some 6%nat) [] 40 (NCallable true [Rec]) s in
   snd r = OPanic PSO /\ regs (fst r) = regs s /\ leaked (fst r) = [].
 Proof. vm_compute. auto. Qed.
 
 (* 5. next_run_equivalent — an idle runtime with an empty job queue IS a fresh runtime that carries only the
       completed-effects log (plus the interrupt flag, which the API documents as persistent, and the harness's probe
       counter / observation fields): every later call behaves identically on both. *)
-Theorem next_run_equivalent : forall lim faults fixed fuel a s,
+Theorem next_run_equivalent : forall lim faults fuel a s,
   idle_regs s = true -> jq s = [] ->
-  api_exec lim faults fixed fuel a s =
-  api_exec lim faults fixed fuel a (fresh_with (log s) (pcount s) (intr s) (trace s) (leaked s)).
+  api_exec lim faults fuel a s =
+  api_exec lim faults fuel a (fresh_with (log s) (pcount s) (intr s) (trace s) (leaked s)).
 Proof. exact Proofs.next_run_equivalent. Qed.
 
 (* 6. The snapshot/restore lemma of handleThrow, for EVERY state: a frame tf whose snapshot was taken at s0, ANY later
@@ -120,21 +106,21 @@ Proof. vm_compute. auto. Qed.
       whose target frame is tf, (i) the walk starts with the iterator stack untouched (its sm = its s): whatever a
       return() call iterates is pushed ABOVE the tail being walked; (ii) [raise] is the walk followed by the pure
       handleThrow (or, when an uncatchable panic leaves a return() call, by the handling of that panic); (iii) if no
-      deviation occurs, every return() call that comes back has restored every register and stack, and only THEN are the
+      ghost deviation is recorded (none can be any more), every return() call that comes back has restored every register and stack, and only THEN are the
       iterator and reference stacks cut to the frame's snapshot.  Native return() methods close in stack order, each
       dropped record exactly once, the outermost last. *)
-Theorem raise_closes_then_truncates : forall lim faults fixed fuel inrec p s tf rest,
+Theorem raise_closes_then_truncates : forall lim faults fuel inrec p s tf rest,
   catchable p = true -> target p (ts s) = Some (tf, rest) ->
   let sm := set_ts (tf :: rest) (restore_regs tf s) in
   let dropped := firstn (length (its s) - t_iter tf) (its s) in
-  let r := close_items lim (exec lim faults fixed fuel) dropped sm in
+  let r := close_items lim (exec lim faults fuel) dropped sm in
   its sm = its s /\
-  raise lim fixed (exec lim faults fixed fuel) inrec p s =
+  raise lim (exec lim faults fuel) inrec p s =
     match r with
     | (s1, ONorm) => handle_throw p s1
     | (s1, OPanic p') =>
         let s2 := restore_stacks (t_iter tf) (t_ref tf) s1 in     (* the deferred dropStacks *)
-        if inrec && negb fixed then (deviate 23 s2, OEscaped p') else handle_throw p' (with_regs_of s s2)
+        handle_throw p' (with_regs_of s s2)
     | (s1, _) => (s1, OStuck)
     end /\
   (snd r = ONorm -> dv (fst r) = dv s ->
@@ -151,7 +137,7 @@ Proof. exact Proofs.close_items_native_log. Qed.
 Example raise_closes_nonvacuous :
   (* try { for (a of outer) for (b of inner) throw } catch {}: inner.return() itself runs a for-of; closes: inner, outer *)
   let t := ARun [Try [ForOf 1 [] 2 [ForOf 2 [] 2 [Probe; Throw] (Some [ForOf 3 [] 1 [Probe] None; Effect 1002])] (Some [Effect 1001])] [Effect 5] [] true false] in
-  let r := api_exec None [] false 40 t init in
+  let r := api_exec None [] 40 t init in
   snd r = RNormal /\ log (fst r) = [1002%nat; 1001%nat; 5%nat] /\ idle_full (fst r) = true /\
   map (fun x => match x with (_, _, _, _, _, _, n, _, _) => n end) (rev (trace (fst r))) = [2%nat; 3%nat].
 Proof. vm_compute. auto. Qed.
@@ -170,22 +156,15 @@ Proof. exact Proofs.uncatchable_never_caught. Qed.
 Theorem handleThrow_shrinks : forall p s, (length (ts (fst (handle_throw p s))) <= length (ts s))%nat.
 Proof. exact Proofs.handleThrow_shrinks. Qed.
 
-(* 7. The former findings F16 (195c9cc), F17 (60d9770), F21 (82237e3), F22 (7d68b51) are repaired in /repo: their
-      witnesses are idle under the current algorithm.  The guard of 1 is needed for the open finding F23, exhibited by
-      the faithful model (and replayed on the implementation by the correspondence check). *)
+(* 7. The former findings F16 (195c9cc), F17 (60d9770), F21 (82237e3), F22 (7d68b51), F23 (bd17f67) are repaired in
+      /repo: their witnesses are idle under the current algorithm. *)
 Theorem former_findings_repaired :
-  idle_after None [(0%nat, FIntr)] false w16 = true /\ idle_after (Some 3%nat) [] false w16b = true /\
-  idle_after None [(0%nat, FIntr)] false w16c = true /\ idle_after (Some 0%nat) [] false w17 = true /\
-  idle_after (Some 2%nat) [] false w21 = true /\ idle_after None [(0%nat, FGo)] false w22 = true.
+  idle_after None [(0%nat, FIntr)] w16 = true /\ idle_after (Some 3%nat) [] w16b = true /\
+  idle_after None [(0%nat, FIntr)] w16c = true /\ idle_after (Some 0%nat) [] w17 = true /\
+  idle_after (Some 2%nat) [] w21 = true /\ idle_after None [(0%nat, FGo)] w22 = true /\
+  idle_after None [(0%nat, FThrow); (1%nat, FIntr)] w23 = true.
 Proof. exact Proofs.former_findings_repaired. Qed.
 
-Theorem idle_refuted_F23 :
-  idle_after None [(0%nat, FThrow); (1%nat, FIntr)] false w23 = false /\
-  idle_after None [(0%nat, FThrow); (1%nat, FIntr)] true w23 = true /\
-  deviations None [(0%nat, FThrow); (1%nat, FIntr)] w23 = [23%nat].
-Proof. exact Proofs.idle_refuted_F23. Qed.
-
-Print Assumptions idle_restored_partial.
 Print Assumptions idle_restored.
 Print Assumptions idle_restored_jobs.
 Print Assumptions history_idle.
@@ -198,4 +177,3 @@ Print Assumptions handleThrow_idem.
 Print Assumptions uncatchable_never_caught.
 Print Assumptions handleThrow_shrinks.
 Print Assumptions former_findings_repaired.
-Print Assumptions idle_refuted_F23.
